@@ -269,3 +269,24 @@ def holds(pc: PathConditions, node, text: str) -> Fact | None:
         if _canon_fact(f.expr, f.pol) == want:
             return f
     return None
+
+
+def selected_by(pc: PathConditions, node, var: str, value) -> Fact | None:
+    """node runs for `var == value`: a fact `var == value`, or `var in {.., value, ..}` with a literal collection."""
+    def pred(e, pol):
+        if not (isinstance(e, ast.Compare) and len(e.ops) == 1):
+            return False
+        op, l, r = e.ops[0], e.left, e.comparators[0]
+        if isinstance(op, (ast.Eq, ast.NotEq)):
+            sides = [l, r]
+            names = [" ".join(ast.unparse(x).split()) for x in sides]
+            lits = [x.value for x in sides if isinstance(x, ast.Constant)]
+            return var in names and value in lits and (isinstance(op, ast.Eq) == pol)
+        if isinstance(op, (ast.In, ast.NotIn)) and " ".join(ast.unparse(l).split()) == var:
+            try:
+                coll = ast.literal_eval(r)
+            except Exception:
+                return False
+            return value in coll and (isinstance(op, ast.In) == pol)
+        return False
+    return pc.truth(node, pred)
